@@ -497,3 +497,71 @@ Lemma reg_transform_key_error reg a b p pr M :
   reg_lookup reg a b = LKeyError ->
   reg_transform_point reg a b p = TKeyError /\ reg_transform_pose reg a b pr = TKeyError /\ reg_transform_matrix reg a b M = TKeyError.
 Proof. unfold reg_transform_point, reg_transform_pose, reg_transform_matrix. intros ->. repeat split. Qed.
+
+(* ------------------------------------------------------------------------------------------ *)
+(* the normalising folds used by the correspondence compute the same values                     *)
+(* ------------------------------------------------------------------------------------------ *)
+Definition rigid_equiv (A B : rigid) : Prop :=
+  qeq (rq A) (rq B) /\ veq (rt A) (rt B) /\ rsrc A = rsrc B /\ rdst A = rdst B.
+Definition dot_result_equiv (a b : dot_result) : Prop :=
+  match a, b with
+  | DotOk A, DotOk B => rigid_equiv A B
+  | DotValueError, DotValueError => True
+  | _, _ => False
+  end.
+
+Lemma vred_veq v : veq (vred v) v.
+Proof. unfold veq, vred. cbn [vx vy vz]. repeat split; apply Qred_correct. Qed.
+Lemma qred_qeq q : qeq (qred q) q.
+Proof. unfold qeq, qred. cbn [qw qx qy qz]. repeat split; apply Qred_correct. Qed.
+Lemma rigid_red_equiv T : rigid_equiv (rigid_red T) T.
+Proof. unfold rigid_equiv, rigid_red. cbn [rq rt rsrc rdst]. repeat split; try apply Qred_correct. Qed.
+
+Lemma rigid_equiv_refl A : rigid_equiv A A.
+Proof. unfold rigid_equiv. repeat split; reflexivity. Qed.
+Lemma rigid_equiv_trans A B C : rigid_equiv A B -> rigid_equiv B C -> rigid_equiv A C.
+Proof.
+  intros (a&b&c&d) (a'&b'&c'&d'). split; [eapply qeq_trans; eassumption|]. split; [eapply veq_trans; eassumption|].
+  split; congruence.
+Qed.
+
+Lemma dot_equiv A A' B B' : rigid_equiv A A' -> rigid_equiv B B' -> dot_result_equiv (dot A B) (dot A' B').
+Proof.
+  intros ((a1&a2&a3&a4)&(b1&b2&b3)&Hs&Hd) ((c1&c2&c3&c4)&(d1&d2&d3)&Hs'&Hd').
+  unfold dot. rewrite Hs, Hd'. destruct (negb (String.eqb (rsrc A') (rdst B'))); [exact I|].
+  unfold dot_result_equiv, rigid_equiv. cbn [rq rt rsrc rdst]. split; [|split; [|split; assumption]].
+  - unf. rewrite a1, a2, a3, a4, c1, c2, c3, c4. repeat split; reflexivity.
+  - unf. rewrite a1, a2, a3, a4, b1, b2, b3, d1, d2, d3. repeat split; reflexivity.
+Qed.
+
+Lemma chain_from_equiv l : forall acc acc', rigid_equiv acc acc' ->
+  dot_result_equiv (chain_from_n acc l) (chain_from acc' l).
+Proof.
+  induction l as [|T t IH]; intros acc acc' H; cbn [chain_from_n chain_from].
+  - exact H.
+  - unfold transform_matrix.
+    assert (E := dot_equiv T T acc acc' (rigid_equiv_refl T) H).
+    destruct (dot T acc) as [x|], (dot T acc') as [y|]; cbn [dot_result_equiv] in E; try contradiction; [|exact I].
+    apply IH. eapply rigid_equiv_trans; [apply rigid_red_equiv|exact E].
+Qed.
+
+Theorem chain_from_n_correct acc l : dot_result_equiv (chain_from_n acc l) (chain_from acc l).
+Proof. apply chain_from_equiv, rigid_equiv_refl. Qed.
+
+Lemma apply_chain_pose_n_equiv l : forall p p' r r', veq p p' -> qeq r r' ->
+  veq (fst (apply_chain_pose_n l (p, r))) (fst (apply_chain_pose l (p', r'))) /\
+  qeq (snd (apply_chain_pose_n l (p, r))) (snd (apply_chain_pose l (p', r'))).
+Proof.
+  induction l as [|T t IH]; intros p p' r r' Hp Hr; cbn [apply_chain_pose_n apply_chain_pose].
+  - cbn [fst snd]. split; assumption.
+  - destruct (apply_pose_eq T p p' r r' Hp Hr) as (A&B).
+    destruct (apply_pose T (p, r)) as [p1 r1], (apply_pose T (p', r')) as [p2 r2]. cbn [fst snd] in A, B.
+    unfold pose_red. cbn [fst snd]. apply IH.
+    + eapply veq_trans; [apply vred_veq|exact A].
+    + eapply qeq_trans; [apply qred_qeq|exact B].
+Qed.
+
+Theorem apply_chain_pose_n_correct l p r :
+  veq (fst (apply_chain_pose_n l (p, r))) (fst (apply_chain_pose l (p, r))) /\
+  qeq (snd (apply_chain_pose_n l (p, r))) (snd (apply_chain_pose l (p, r))).
+Proof. apply apply_chain_pose_n_equiv; [apply veq_refl|apply qeq_refl]. Qed.
